@@ -60,8 +60,26 @@ static std::string wbytes(const std::vector<uint32_t> &w, bool term = true) {
     if (term) { uint32_t z = 0; s.append((const char *)&z, 4); }
     return s;
 }
+// a code point from the scripts / blocks the folding and normalisation tables have entries for
+static uint32_t uni_cp(Rng &r) {
+    static const uint32_t ranges[][2] = {
+        {0x41, 0x5a}, {0xc0, 0x17f}, {0x180, 0x24f}, {0x370, 0x3ff}, {0x400, 0x52f}, {0x531, 0x587}, {0x10a0, 0x10ff}, {0x13a0, 0x13fd},
+        {0x1e00, 0x1eff}, {0x1f00, 0x1fff}, {0x2100, 0x214f}, {0x2160, 0x2188}, {0x24b6, 0x24e9}, {0x2c00, 0x2cff}, {0xa640, 0xa69f},
+        {0xa720, 0xa7ff}, {0xab70, 0xabbf}, {0xfb00, 0xfb17}, {0xff21, 0xff5a}, {0x10400, 0x1044f}, {0x104b0, 0x104ff}, {0x10c80, 0x10cb2},
+        {0x118a0, 0x118df}, {0x1e900, 0x1e943}, {0x300, 0x36f}, {0x1100, 0x11ff}, {0xac00, 0xd7a3}, {0xf900, 0xfaff}, {0x2f800, 0x2fa1d},
+        {0x1d15e, 0x1d164}, {0x1109a, 0x110ab}, {0x3041, 0x30ff}, {0x900, 0x97f}, {0x9dc, 0x9df}, {0xf43, 0xfb9}, {0x1b06, 0x1b43}};
+    const uint32_t *rg = ranges[r.below(sizeof ranges / sizeof *ranges)];
+    return rg[0] + r.below(rg[1] - rg[0] + 1);
+}
 static std::vector<uint32_t> rwstr(Rng &r, int len, int kind) {
     std::vector<uint32_t> w;
+    if (kind % 5 == 1 || kind % 5 == 2) {
+        // half of the "non-ASCII" strings sample the whole table range instead of the small fixed sets
+        if (r.chance(1, 2)) {
+            for (int i = 0; i < len; i++) w.push_back(r.chance(1, 3) ? (uint32_t)('a' + r.below(26)) : uni_cp(r));
+            return w;
+        }
+    }
     for (int i = 0; i < len; i++) {
         uint32_t c;
         switch (kind % 5) {
@@ -398,13 +416,18 @@ static void add_directive(Bld &b, std::string &fmt, std::vector<FmtArg> &args, b
     int k = want >= 0 ? want : r.below(12);
     switch (k) {
     case 0: case 1: { // integer
-        static const char *d[] = {"%d", "%5d", "%-6d|", "%x", "%#o", "%u", "%05d", "%+d", "%lld", "%zu", "%hhd", "%hd", "%lX", "%#x", "% d", "%.4d"};
-        fmt += d[r.below(16)];
-        args.push_back({0, (int64_t)(int32_t)r.next() % (r.chance(1, 2) ? 1000 : 2000000000)});
+        static const char *d[] = {"%d", "%5d", "%-6d|", "%x", "%#o", "%u", "%05d", "%+d", "%lld", "%zu", "%hhd", "%hd", "%lX", "%#x", "% d", "%.4d",
+                                  "%i", "%li", "%lli", "%lu", "%llu", "%hu", "%hhu", "%hhx", "%b", "%#b", "%o", "%X", "%#X", "%ju", "%jd", "%td", "%zd",
+                                  "%.0d", "%40d", "%-40d|", "%040d", "% 5d", "%+5i", "%#.8x", "%-#12o|", "%.36d", "%#llx", "%+lld", "%hi", "%hhi"};
+        fmt += d[r.below(46)];
+        int64_t iv = (int64_t)(int32_t)r.next() % (r.chance(1, 2) ? 1000 : 2000000000);
+        if (r.chance(1, 8)) iv = 0;
+        if (r.chance(1, 10)) iv = (int64_t)r.next();
+        args.push_back({0, iv});
         break;
     }
     case 2: { // char
-        fmt += r.chance(1, 2) ? "%c" : "%3c";
+        fmt += pick(r, {0, 1, 2}) == 0 ? "%c" : r.chance(1, 2) ? "%3c" : "%-4c|";
         args.push_back({0, 'A' + r.below(26)});
         break;
     }
@@ -430,16 +453,23 @@ static void add_directive(Bld &b, std::string &fmt, std::vector<FmtArg> &args, b
         break;
     }
     case 6: case 7: { // double
-        static const char *d[] = {"%f", "%.2f", "%10.3f", "%e", "%g", "%G", "%a", "%A", "%.0f", "%#.3g", "%E", "%+.1f", "%012.4f", "%.10e"};
-        int di = r.below(14);
+        static const char *d[] = {"%f", "%.2f", "%10.3f", "%e", "%g", "%G", "%a", "%A", "%.0f", "%#.3g", "%E", "%+.1f", "%012.4f", "%.10e",
+                                  // 14.. : more flag / width / precision combinations (same value restrictions as their base forms below)
+                                  "%.12f", "%-12.3f|", "%#.0f", "% f", "%+e", "% e", "%-15e|", "%015e", "%.0e", "%-10a|", "%.2a", "%.4g", "%-12g|", "%08.3g"}; // no sign flags with %g: the sign is emitted from an indeterminate byte (C11 defect)
+        int di = r.below(28);
         fmt += d[di];
         double dv = some_double(r);
-        if ((di == 4 || di == 5 || di == 9) && dv < 0) dv = -dv;
+        bool gform = di == 4 || di == 5 || di == 9 || di >= 25;
+        bool fform = di <= 2 || di == 8 || di == 11 || di == 12 || (di >= 14 && di <= 17);
+        if (gform && dv < 0) dv = -dv;
         // %f of |v| > 1e9 falls through to libc snprintf("%le", (long double)v): a type mismatch that prints
         // indeterminate digits (C11 defect, not decided here) -- no such values for the %f conversions
-        if ((di <= 2 || di == 8 || di == 9 || di == 11 || di == 12) && (dv > 1e9 || dv < -1e9)) dv = 12345.678;
+        if ((fform || di == 9 || di == 27) && (dv > 1e9 || dv < -1e9)) dv = 12345.678;
         // %#g of zero / tiny values indexes the engine's pow10[] table far out of bounds (C02 defect, not decided here)
-        if (di == 9 && !(dv >= 1e-4)) dv = 0.25;
+        if ((di == 9) && !(dv >= 1e-4)) dv = 0.25;
+        // %g of zero: the engine derives a huge negative decimal exponent for 0.0 and emits digits that depend on
+        // stale stack contents (same family of defect; C11) -- no zeros for the %g forms
+        if (gform && dv == 0.0) dv = 0.5;
         args.push_back({1, dbits(dv)});
         break;
     }
@@ -451,11 +481,16 @@ static void add_directive(Bld &b, std::string &fmt, std::vector<FmtArg> &args, b
     }
     case 10: { // star width / wide char
         if (room >= 2 && r.chance(1, 2)) {
-            fmt += r.chance(1, 2) ? "%*d" : "%-*d|";
-            args.push_back({0, (int64_t)r.below(20)});
-            args.push_back({0, (int64_t)r.below(100000)});
+            static const char *sd[] = {"%*d", "%-*d|", "%.*d", "%.*s", "%*x"};
+            int si = r.below(5);
+            fmt += sd[si];
+            args.push_back({0, si == 0 && r.chance(1, 6) ? -(int64_t)r.below(12) : (int64_t)r.below(20)});
+            if (si == 3) {
+                std::string s = rstr(r, r.below(30), r.below(5)) + std::string(1, '\0');
+                args.push_back({3, (int64_t)b.put(s, 1, (uint32_t)s.size())});
+            } else args.push_back({0, (int64_t)r.below(100000)});
         } else if (!stream && !wide) {
-            fmt += "%lc";
+            fmt += pick(r, {0, 1, 2}) == 0 ? "%lc" : r.chance(1, 2) ? "%4lc" : "%-4lc|";
             args.push_back({0, pick(r, {'x', 0xe9, 0x3a3, 0x20ac})});
         } else {
             fmt += "%d";
@@ -669,7 +704,13 @@ static bool gen_time(Bld &b, bool viol) {
             tm.tm_sec = r.below(60); tm.tm_min = r.below(60); tm.tm_hour = r.below(24);
             tm.tm_mday = 1 + r.below(31); tm.tm_mon = r.below(12); tm.tm_year = r.below(300);
             tm.tm_wday = r.below(7); tm.tm_yday = r.below(366); tm.tm_isdst = r.below(2);
-            if (viol && r.chance(1, 3)) { if (r.chance(1, 2)) tm.tm_mon = 12 + r.below(3); else tm.tm_hour = -1; }
+            if (viol && r.chance(1, 2)) {
+                int *members[] = {&tm.tm_sec, &tm.tm_min, &tm.tm_hour, &tm.tm_mday, &tm.tm_mon, &tm.tm_year, &tm.tm_wday, &tm.tm_yday, &tm.tm_isdst};
+                static const int toobig[] = {61, 60, 24, 32, 12, 8100, 7, 366, 2};
+                int k = r.below(9);
+                *members[k] = r.chance(1, 2) ? -1 - (int)r.below(3) : toobig[k] + (int)r.below(3);
+                if (r.chance(1, 8)) tm.tm_gmtoff = r.chance(1, 2) ? -2000000 : 2000000;
+            }
             b.op.a[2] = (viol && r.chance(1, 8)) ? -1 : (int64_t)b.put(std::string((const char *)&tm, sizeof tm), 8, sizeof tm);
         } else {
             int64_t tt = r.chance(1, 2) ? (int64_t)r.below(2000000000) : (int64_t)(r.next() % 250000000000ULL);
@@ -776,14 +817,14 @@ static bool gen_uni(Bld &b, bool viol, int force_flavour = -1) {
     int fn = pick(r, {FN_towfc_s, FN_iswfc, FN_wcsfc_s, FN_wcsfc_s, FN_wcsnorm_s, FN_wcsnorm_s, FN_wcsnorm_s, FN_wcsnorm_decompose_s, FN_wcsnorm_reorder_s, FN_wcsnorm_compose_s});
     if (force_flavour >= 0) fn = pick(r, {FN_wcsnorm_s, FN_wcsnorm_s, FN_wcsnorm_reorder_s, FN_wcsnorm_compose_s});
     b.op.fn = fn;
-    if (fn == FN_iswfc) { b.op.a[0] = pick(r, {'a', 'A', 0xdf, 0x130, 0x3a3, 0x1e9e, 0xfb01, 0x10400, 0x1f88}); return b.commit(); }
+    if (fn == FN_iswfc) { b.op.a[0] = r.chance(1, 2) ? (int64_t)uni_cp(r) : pick(r, {'a', 'A', 0xdf, 0x130, 0x3a3, 0x1e9e, 0xfb01, 0x10400, 0x1f88}); return b.commit(); }
     if (fn == FN_towfc_s) {
         uint32_t cap = viol && r.chance(1, 2) ? 1 + r.below(3) : 4 + r.below(6);
         uint32_t doff = b.put_zero(cap * 4, 4);
         Dm d = pick_dmax(r, cap, 4, MAXWSTR, viol && r.chance(1, 2));
         b.op.a[0] = (viol && r.chance(1, 8)) ? -1 : (int64_t)doff;
         b.op.a[1] = d.dmax;
-        b.op.a[2] = pick(r, {'a', 'A', 0xdf, 0x130, 0x3a3, 0x1e9e, 0xfb01, 0x10400, 0x1f88, 0x390});
+        b.op.a[2] = r.chance(1, 2) ? (int64_t)uni_cp(r) : pick(r, {'a', 'A', 0xdf, 0x130, 0x3a3, 0x1e9e, 0xfb01, 0x10400, 0x1f88, 0x390});
         b.op.a[3] = d.bos;
         return b.commit();
     }
